@@ -219,6 +219,8 @@ func c12(r *core.Run) {
 	} else {
 		r.Unres("T7", "IndexQuery.FetchCollection", "missing")
 	}
+	r.Rule("T9", "after RebuildIndexes a query returns only values that match its prefix (shared with C13.K9): an index entry contributes its id only behind a comparison of the id separator's position with the length of the prefix the iterator matches with (index name, ':' and key prefix) - compared with the bare key prefix, which is shorter by the name, a prefix that ends in the separator byte matches through the separator into the ids and returns values whose key is only a prefix of the one asked for", 1)
+	c13PrefixInsideKey(r, "T9", rel)
 	r.Rule("T8", "after RebuildIndexes an unlimited query returns every matching value (shared with C13.W1): a negative limit is mapped to max-int in the index scan, not to a buffer size", 1)
 	if fc := methodNamed(p, "store/badgerstore", "IndexQuery", "FetchCollection"); fc != nil {
 		r.Check(c13NegativeLimitIsUnlimited(fc), "T8", core.FuncName(fc), "negative-limit->max-int", p.Pos(fc.Pos()), "negative limit means unlimited", "a negative limit is not mapped to max-int: an unlimited query is cut off at some fixed number of ids although every value and every index entry is present")
@@ -1179,6 +1181,8 @@ func c14(r *core.Run) {
 	r.Rule("V1", "every query request gets its own answer (shared with C15.C1 / C16.V1): no closure created in a loop and handed to the per-group queue captures a variable the loop re-assigns (the module's go directive gives loop variables one instance per loop); the listener of a query event would otherwise hand every pending request's closure the latest message", 1)
 	r.Rule("N6", "the change is asked about the query the result is fetched with: in the query handler, wherever a request-handler callback translates the request into the store's query, QueryChange.Events receives that translated query (through phis), not the raw request query", 1)
 	c14EventsGetTheStoreQuery(r, "N6")
+	r.Rule("E1", "the events handed on reproduce the new result: a transformer that folds a result's remove / add events into one model change stores into the change map depending on the event alone (name, value type, loop) - never on what the map already holds; a store skipped for an id that is already in the map leaves the delete action of an earlier remove in place, and the client deletes an id a fresh get still returns", 1)
+	c14EventsFoldedInOrder(r, "E1")
 	r.Rule("N9", "what a query returns is what the change test assumes (shared with C13.K9): an index entry is returned only when the query prefix ends before the id separator - exactly, not \"up to one byte past it\" - because queryChange.affectsQuery tests the prefix against the bare key", 1)
 	c13PrefixInsideKey(r, "N9", "store/badgerstore")
 	r.Rule("N8", "the index entries written are the ones computed: BadgerDB keeps the key slices handed to Txn.Set / Txn.Delete until the commit, so every key a transaction of the query store writes is memory of its own - a key builder of the package returns a slice it made itself on every path, never (a re-slice of) a buffer it was handed: with a scratch buffer the key of the pending delete is overwritten by the key of the following set and the old entry is never removed", 1)
@@ -3366,6 +3370,15 @@ func c13PrefixInsideKey(r *core.Run, rule, rel string) {
 			}
 		}
 	}
+	// what the iterator is asked to match entries with
+	prefixOrigins := map[ssa.Value]bool{}
+	for _, f2 := range scope {
+		for _, c := range core.Calls(f2) {
+			if strings.HasSuffix(core.CalleeName(c), "badger.Iterator).ValidForPrefix") && len(c.Common().Args) > 0 {
+				prefixOrigins[valueOrigin(p, c.Common().Args[len(c.Common().Args)-1], 0)] = true
+			}
+		}
+	}
 	// comparesSep: the edge's condition relates a separator position to a non-constant value
 	comparesSep := func(ed edgeCond, seps []ssa.Value) bool {
 		cnd, _ := ed.Norm()
@@ -3389,6 +3402,12 @@ func c13PrefixInsideKey(r *core.Run, rule, rel string) {
 				continue
 			}
 			if _, isConst := other.(*ssa.Const); !isConst {
+				// the length compared is that of the prefix the iterator matches entries with (name, ':' and
+				// key prefix): where both can be traced and differ (the bare key prefix, which is shorter
+				// by the name), the comparison does not keep a prefix from matching through the separator
+				if lo, ok := lenOrigin(p, other); ok && len(prefixOrigins) > 0 && !prefixOrigins[lo] {
+					continue
+				}
 				return true
 			}
 		}
@@ -3834,4 +3853,72 @@ func c13KeyNonNilAt(p *core.Prog, keyVal ssa.Value, at ssa.Instruction, d int) b
 		}
 	}
 	return true
+}
+
+// valueOrigin follows a value back through loads of single-assignment
+// variables (also captured ones) and through parameters of private helpers
+// with one call site.
+func valueOrigin(p *core.Prog, v ssa.Value, depth int) ssa.Value {
+	for ; depth < 8; depth++ {
+		v = core.Strip(v)
+		if u, ok := v.(*ssa.UnOp); ok && u.Op == token.MUL {
+			cell := cellOf(u)
+			al, ok := cell.(*ssa.Alloc)
+			if !ok || al.Referrers() == nil {
+				return v
+			}
+			var stored []ssa.Value
+			for _, f := range withAnon(al.Parent()) { // closures write the variable through their free variables
+				for _, b := range f.Blocks {
+					for _, in := range b.Instrs {
+						if st, ok := in.(*ssa.Store); ok && (st.Addr == ssa.Value(al) || f != al.Parent() && cellOfAddr(st.Addr) == ssa.Value(al)) {
+							stored = append(stored, st.Val)
+						}
+					}
+				}
+			}
+			if len(stored) != 1 {
+				return v
+			}
+			v = stored[0]
+			continue
+		}
+		if prm, ok := v.(*ssa.Parameter); ok {
+			as := paramArgs(p, prm, 0)
+			if len(as) != 1 || as[0] == v {
+				return v
+			}
+			v = as[0]
+			continue
+		}
+		return v
+	}
+	return v
+}
+
+// lenOrigin: v is (a variable holding) len(x); returns the origin of x.
+func lenOrigin(p *core.Prog, v ssa.Value) (ssa.Value, bool) {
+	o := valueOrigin(p, v, 0)
+	c, ok := o.(*ssa.Call)
+	if !ok || core.CalleeName(c) != "builtin:len" {
+		return nil, false
+	}
+	return valueOrigin(p, c.Call.Args[0], 0), true
+}
+
+// cellOfAddr resolves an address operand (no load is stripped) to the variable
+// it denotes: a free variable is followed to the cell it is bound to.
+func cellOfAddr(v ssa.Value) ssa.Value {
+	for i := 0; i < 8; i++ {
+		fv, ok := v.(*ssa.FreeVar)
+		if !ok {
+			return v
+		}
+		b := core.BindingOf(fv)
+		if b == nil {
+			return v
+		}
+		v = b
+	}
+	return v
 }
